@@ -37,8 +37,16 @@ def blocks_vision(d):
     return t in ('Wall', 'Hidden', 'NoneGridObject') or (t == 'Door' and s != 0)
 
 
+CUSTOM = {}  # user-defined (harness-registered) type name -> {'holdable': bool, 'blocks_move': bool, 'base': library type name | None}
+
+
+def base_type(d):
+    """the library type a descriptor's type is (a subclass of), or its own name"""
+    return CUSTOM.get(d[0], {}).get('base') or d[0]
+
+
 def holdable(d):
-    return d[0] == 'Key'
+    return d[0] == 'Key' or bool(CUSTOM.get(d[0], {}).get('holdable'))
 
 
 def shape(rows):
@@ -139,13 +147,13 @@ def ref_teleport(s, a):
     """set of allowed successor states"""
     rows, y, x, h, held = s
     here = rows[y][x]
-    if here[0] != 'Telepod':
+    if base_type(here) != 'Telepod':
         return {s}
     partners = [
         (yy, xx)
         for yy, row in enumerate(rows)
         for xx, o in enumerate(row)
-        if o[0] == 'Telepod' and o[2] == here[2] and (yy, xx) != (y, x)
+        if base_type(o) == 'Telepod' and o[2] == here[2] and (yy, xx) != (y, x)
     ]
     if not partners:
         return {s}
